@@ -141,6 +141,14 @@ def gen_lists(seed, tier):
     wl = st["workload"]
     n = 10 if tier == "quick" else 40
     vbs = [[]]
+    # directed lists: the terminator lands on / across a payload edge (4 + len in 1008..1011 mod 1012),
+    # records ending in NUL bytes (look like a terminator), all-0x40 records (look like fill)
+    for L in (1004, 1005, 1007, 2016, 2019):
+        vbs.append([{"pos": [3, L]}])
+    vbs.append([{"pos": [0, 500]}, {"pos": [7, 496]}])                 # 504 + 500 = 1004 -> terminator at 1008..1011
+    vbs.append([{"cat": [{"pos": [0, 20]}, {"fill": [0, 6]}]}])          # ends in six NULs
+    vbs.append([{"fill": [0, 4]}, {"fill": [0, 9]}])
+    vbs.append([{"fill": [0x40, 1012]}, {"fill": [0x40, 3]}])
     for _ in range(n - 1):
         k = wl.randint(1, 8)
         recs = []
